@@ -6,6 +6,7 @@ import (
 	"os"
 
 	"wrverif/c15"
+	"wrverif/facts"
 )
 
 func init() {
@@ -13,5 +14,6 @@ func init() {
 	if mode := os.Getenv("WRH_C15_WORKER"); mode != "" {
 		os.Exit(c15.WorkerMain(mode))
 	}
+	facts.Tables = append(facts.Tables, facts.Table{File: "C15Globals.lean", Gen: c15.GlobalsLean})
 	runners["C15"] = func(c *Ctx) error { return c15.Run(c.Tier, c.Seed, c.ModelPath, c.Repo, c.R) }
 }
